@@ -100,13 +100,47 @@ def _body(cs, n, susp, j, k):
         ok = fail("tee:source-not-released-when-all-children-done", (choices.trace, ended)) and ok
     if st.closed > 1:
         ok = fail("tee:source-closed-more-than-once") and ok
+    nitems = len(items)
+    if cancelled and all(e in ("stop", "cancelled") for e in ended):
+        # a cancelled consumer's child is dead: nothing may be buffered for it any more once the
+        # surviving children have taken everything (the handle and the children are still referenced)
+        import gc
+        import weakref
+
+        refs = [weakref.ref(x) for x in items if x is not None]
+        for got in results:
+            del got[:]
+        got = None
+        del items[:]
+        del st.items[:]
+        # the traceback of the delivered exception keeps the dead frames (and their locals) alive
+        cancel.__traceback__ = None
+        for tk in tasks:
+            if isinstance(tk.value, BaseException):
+                tk.value.__traceback__ = None
+        gc.collect()
+        alive = 0
+        for r_ in refs:
+            if r_() is not None:
+                alive += 1
+        if alive and P("debug_refs", False):
+            for r_ in refs:
+                o_ = r_()
+                if o_ is not None:
+                    for rr in gc.get_referrers(o_):
+                        print("REFERRER", type(rr), repr(rr)[:300])
+                        if isinstance(rr, (list, tuple, dict)):
+                            for r2 in gc.get_referrers(rr):
+                                print("   <-", type(r2), repr(r2)[:200])
+        if alive:
+            ok = fail("tee:items-still-buffered-for-a-cancelled-child", (choices.trace, alive)) and ok
     for v in W.viol:
         ok = fail("tee:%s" % v, choices.trace) and ok
     switches = 0
     for a, b in zip(choices.trace, choices.trace[1:]):
         if a != b:
             switches += 1
-    return finish(ok, len(items) >= 1 and switches >= 1, ("tee", C, len(items), susp, tuple(choices.trace)))
+    return finish(ok, nitems >= 1 and switches >= 1, ("tee", C, nitems, susp, tuple(choices.trace)))
 
 
 from .sched import define, NCH  # noqa: E402
